@@ -434,3 +434,7 @@ mod test {
         Transform2::from_operations(&input).unwrap();
     }
 }
+
+#[cfg(kani)]
+#[path = "/verif/kani/transform.rs"]
+mod verif_kani;
